@@ -38,7 +38,7 @@ struct HistHarness : eng::Harness {
     ex.check_align = (mode == "C03" || mode == "C13");
     ex.police_purge = (mode == "C13");
     if (execute_special(mode, c, ex)) return;
-    if (ex.police_purge) install_purge_police(ex);
+    if (ex.police_purge || mode == "C18") install_purge_police(ex);
     ex.run(c);
   }
 };
